@@ -447,7 +447,37 @@ def filter_set(draw, objs, min_size=0, max_size=5, type_id_weight=2, dt_ok=True,
             out.append(draw(type_or_id_filter(objs)))
         else:
             out.append(draw(property_filter(objs, dt_ok, no_ts)))
+    if target is not None and len(out) <= max_size - 2 + (1 if out else 0) and draw(st.integers(0, 3)) == 0:
+        out = (out[:max(0, max_size - 2)] + draw(twin_equalities(objs, target, no_ts)))[:max(max_size, 2)]
     return out
+
+
+@st.composite
+def twin_equalities(draw, objs, target, no_ts=False):
+    """Two '=' filters on ONE property with different values that both hold for `target`: two elements of a list-valued (or fanned-out)
+    property, or two spellings of one timestamp.  (Equalities on one property contradict each other only for scalar, literally
+    compared values.)"""
+    multi = [p for p in sorted(PATHS) if PATHS[p] in ("list", "fan") and len(set(map(str, M._final_values(target, p.split("."))))) >= 2]
+    tsp = [p for p in sorted(PATHS) if PATHS[p] in ("ts", "ts2") and not _ts_excluded(p, objs, no_ts) and M._final_values(target, p.split("."))]
+    kinds = (["multi"] if multi else []) + (["ts"] if tsp else [])
+    if not kinds:
+        return []
+    if draw(st.sampled_from(kinds)) == "multi":
+        path = draw(st.sampled_from(multi))
+        vals = []
+        for v in M._final_values(target, path.split(".")):
+            if v not in vals:
+                vals.append(v)
+        a = draw(st.integers(0, len(vals) - 1))
+        b = draw(st.integers(0, len(vals) - 2))
+        b = b + 1 if b >= a else b
+        return [{"prop": path, "op": "=", "value": vals[a]}, {"prop": path, "op": "=", "value": vals[b]}]
+    path = draw(st.sampled_from(tsp))
+    t = M.instant(M._final_values(target, path.split("."))[0])
+    s1 = draw(st.integers(0, 3))
+    s2 = draw(st.integers(0, 2))
+    s2 = s2 + 1 if s2 >= s1 else s2
+    return [{"prop": path, "op": "=", "value": respell(t, s1)}, {"prop": path, "op": "=", "value": respell(t, s2)}]
 
 
 def filter_classes(filters):
